@@ -85,7 +85,7 @@ Promote(a, b) ==
 ArrayOps == {"anew", "anewdata", "alen", "agetitem", "agetslice", "asetitem", "asetslice", "adelitem", "adelslice",
              "aappend", "aextend", "ainsert", "apop", "areverse", "acount", "atolist", "aiter", "aequals", "acopy",
              "asetdtype", "abyteswap", "atobytes", "atofile", "atrailing", "adata", "aop", "aiop", "acmp", "abitop",
-             "aunary", "aopa", "aextendarr", "afromarray", "aitemsize", "rawcall", "ascaled", "aastype", "afromfile"}
+             "aunary", "aopa", "aextendarr", "afromarray", "aitemsize", "rawcall", "ascaled", "aastype", "afromfile", "aopf", "aiopf"}
 
 ArrayStep(objs, opts, call) ==
   LET op == call.op
@@ -233,6 +233,21 @@ ArrayStep(objs, opts, call) ==
          IF ~IsIntDtype(a.dn) \/ a.dl > 16 THEN Unconstrained
          ELSE IF fails THEN Raises({"ValueError", "ZeroDivisionError"})
          ELSE IF op = "aop" THEN OkArr(a.dn, a.dl, bits)
+         ELSE [Ok(<<VArr(a.dn, a.dl, bits)>>, <<t>>, Upd(bits)) EXCEPT !.free = {"trailing"}, !.arr = <<Canon(a.dn), a.dl>>]
+    [] op \in {"aopf", "aiopf"} ->
+         \* float-valued dtype, scalar operand: va = <<scalar>> \o <<what Python's float arithmetic gives for each item>>
+         \* (<<0>> where Python itself raises).  IEEE double arithmetic is an oracle input; what is specified is the Array
+         \* machinery around it: every item is replaced by the encoding of its result in the Array's own dtype, a failing
+         \* item makes the whole operation raise ValueError and (in place) change nothing, trailing bits are dropped by the
+         \* result / kept apart as for the integer operators.
+         LET res == SubSeq(call.va, 2, Len(call.va))
+             floaty == Canon(a.dn) \in FloatNames \cup BFloatNames \cup AllMiniNames
+             enc == [i \in 1..n |-> IF res[i][1] = 3 THEN EncodeDtypeM(a.dn, a.dl, res[i], mx) ELSE Bad]
+             bits == FoldLeft(LAMBDA acc, q : acc \o q.bits, <<>>, enc) IN
+         IF ~floaty \/ Len(res) # n \/ \E i \in 1..n : res[i][1] = 13 THEN Unconstrained
+         ELSE IF \E i \in 1..n : res[i][1] = 3 /\ IsNaN64(FloatBits(res[i])) THEN Unconstrained      \* NaN payloads
+         ELSE IF \E i \in 1..n : ~enc[i].ok THEN Raises({"ValueError", "ZeroDivisionError"})
+         ELSE IF op = "aopf" THEN OkArr(a.dn, a.dl, bits)
          ELSE [Ok(<<VArr(a.dn, a.dl, bits)>>, <<t>>, Upd(bits)) EXCEPT !.free = {"trailing"}, !.arr = <<Canon(a.dn), a.dl>>]
     [] op = "aunary" ->
          LET opn == call.sa[1]
